@@ -112,6 +112,8 @@ PROPS = {
         "tests": [
             T("TestC06Image", "fleet", 400, 48000, shards=16, qshards=4),
             T("TestC06Concurrent", "fleet", 150, 32000, shards=16, qshards=2, procs=4),
+            # "exactly the stored application value" for values written by others (extension blocks 1..512)
+            T("TestC14Stored", "kv", 3000, 800000, shards=16, qshards=2),
         ],
         "assumptions": [
             "the reference codec decodes the uploaded blob; byte equality with a re-marshal is not demanded (the streaming encoder writes fields in another order)",
@@ -192,13 +194,16 @@ PROPS = {
             T("TestC14Parse", "codec", 60000, 24000000, shards=8),
             T("TestC14Loop", "fleet", 150, 16000, shards=16, qshards=4, procs=4),
             T("TestC14LoopEnum", "fleet", 1, 1, enum=True, qshards=4, shards=8, procs=4),
+            T("TestC14Stored", "kv", 6000, 1600000, shards=16, qshards=2),
             # invariant part: every value Lightning Stream writes is re-read with the independent reader
             # inside these harnesses (shadow captures/merges/projections, native merges, all format versions)
             T("TestC11Mirror", "kv", 1500, 160000, shards=16),
             T("TestC18Atomic", "kv", 1500, 160000, shards=16),
             T("TestC02Merge", "kv", 10000, 1600000, shards=16),
         ],
+        "known_tests": [T("TestKnownC14", "kv", 1, 1)],
         "assumptions": [
+            "empty stored values in a native DBI are excluded from TestC14Stored (listed known finding native-empty-stored-value-crash: the dump dies with SIGBUS when such a value is the last thing in the data file; reproduced in a child process on every run)",
             "the header table in docs/schema-native.md is the specification (independent reader in harness/internal/model/header.go)",
             "the invariant part re-reads what LS wrote in the C02/C11/C18 harnesses: version 0, flags within the synced set, reserved bytes zero, extension count matching the bytes present, transaction id of the writing transaction, deleted => empty value",
         ],
